@@ -56,6 +56,8 @@ public:
     int stay_num = 1, stay_den = 2;  // probability of continuing with the same thread
     int spurious_per_1000 = 0;
     int timeout_per_1000 = 0;
+    int clock_per_1000 = 0;      // random mode: advance the virtual clock by clock_ms with this probability
+    int64_t clock_ms = 0;
     int last = -1;
     bool pct = false;
     std::vector<int> prio;
@@ -219,6 +221,11 @@ protected:
         if (!parked.empty() && spurious_per_1000 > 0 && rng.chance(spurious_per_1000, 1000)) {
             d.kind = Decision::SPURIOUS;
             d.thread = parked[rng.below(parked.size())];
+            return d;
+        }
+        if (clock_per_1000 > 0 && rng.chance(clock_per_1000, 1000)) {
+            d.kind = Decision::ADVANCE_CLOCK;
+            d.clock_ms = clock_ms;
             return d;
         }
         if (!timedw.empty() && timeout_per_1000 > 0 && rng.chance(timeout_per_1000, 1000)) {
